@@ -97,7 +97,7 @@ fn judge(prop: &str, sc: &Scenario, tr: &exec::Trace, use_model: bool) -> Judged
 	}
 
 	// ---- a resolved ticket implies that its control has run (log order; C07 / C09 / C10) ------------
-	if ["C07", "C09", "C10"].contains(&prop) && sc.faults == sim::Faults::default() {
+	if ["C07", "C09", "C10"].contains(&prop) && sc.faults.is_empty() {
 		let pos = |pred: &dyn Fn(&Ev) -> bool, from: usize| tr.log.iter().enumerate().skip(from).find(|(_, r)| pred(&r.ev)).map(|(i, _)| i);
 		// (by instant, not by log position: the end of the task wakes the waiters and the task monitor together)
 		let task_end = pos(&|e| matches!(e, Ev::TaskEnd { .. }), 0).map(|i| tr.log[i].t);
